@@ -92,8 +92,15 @@ where
     let (lpx, lpy, lqf, lqb) = (cv("lpx"), cv("lpy"), cv("lqf"), cv("lqb"));
     let j = c["u"].as_i64().unwrap();
     let target = TabTarget { lp: vec![lpx, lpy] };
-    let x = vec![S::from_id(0), S::payload(0)];
-    let y = vec![S::from_id(1), S::payload(1)];
+    // the state is a Vec of any length: candidates shorter / longer than the current state are ordinary inputs
+    let shape = (j.unsigned_abs() as usize + c["lpx"]["k"].as_str().map(|k| k.len()).unwrap_or(0) + c["lqb"]["k"].as_str().map(|k| k.len()).unwrap_or(0)) % 3;
+    let mut x = vec![S::from_id(0), S::payload(0)];
+    let mut y = vec![S::from_id(1), S::payload(1)];
+    if shape == 1 {
+        x.extend([S::payload(1), S::payload(0), S::from_id(0)]);
+    } else if shape == 2 {
+        y.extend([S::payload(0), S::from_id(1)]);
+    }
     let z = F::zero();
     let prop = ScriptProp { y: y.clone(), lq: vec![vec![z, lqf], vec![lqb, z]] };
     let mut chain = MHMarkovChain::new(target, prop, x.clone());
@@ -162,6 +169,15 @@ pub fn replay(args: &[String]) {
 }
 
 // ------------------------------------------------------------------ record
+/// The state vector that stands for state id z: its length depends on z (2, 3 or 4 entries).
+fn state_of<S: Sid>(z: usize) -> Vec<S> {
+    let mut v = vec![S::from_id(z), S::payload(z % 2)];
+    for k in 0..(z % 3) {
+        v.push(S::payload((z + k) % 2));
+    }
+    v
+}
+
 #[derive(Clone)]
 struct WTarget {
     w: Vec<u32>,
@@ -192,7 +208,7 @@ impl<S: Sid, F: Float> Proposal<S, F> for TabProp {
             }
         }
         *self.last.lock().unwrap() = Some(y);
-        vec![S::from_id(y), S::payload(y % 2)]
+        state_of::<S>(y)
     }
     fn logp(&self, from: &[S], to: &[S]) -> F {
         (F::from(self.num[from[0].to_id()][to[0].to_id()]).unwrap() / F::from(self.d).unwrap()).ln()
@@ -228,7 +244,7 @@ where
         .collect();
     let last = Arc::new(Mutex::new(None));
     let prop = TabProp { num: num.clone(), d, rng: SmallRng::seed_from_u64(seed ^ 0xABCD), last: last.clone() };
-    let x0 = vec![S::from_id(start), S::payload(start % 2)];
+    let x0 = state_of::<S>(start);
     let mut chain = MHMarkovChain::new(WTarget { w: w.clone() }, prop, x0);
     chain.rng = SmallRng::seed_from_u64(seed.wrapping_mul(3) + 1);
     out.push(&json!({"e": "init", "x": start, "wx": w[start], "types": format!("{}/{}", S::NAME, std::any::type_name::<F>())}));
@@ -238,7 +254,7 @@ where
         if g.random_range(0..6) == 0 {
             let pos: Vec<usize> = (0..n).filter(|i| w[*i] > 0).collect();
             let z = pos[g.random_range(0..pos.len())];
-            chain.current_state = vec![S::from_id(z), S::payload(z % 2)];
+            chain.current_state = state_of::<S>(z);
             out.push(&json!({"e": "set", "x": z, "wx": w[z]}));
         }
         let x = chain.current_state[0].to_id();
@@ -258,7 +274,9 @@ where
         let uq = (u64v * 1048576.0).floor() as i64;
         // "kept": when the state id did not change the whole vector must be bit-identical,
         // when it changed it must be the proposed vector
-        let intact = if xn == x && y != x { after == before } else { after[0] == S::from_id(xn).bits() };
+        // "kept": bit-identical to the state before; "moved": exactly the proposed vector (also its length)
+        let want: Vec<u64> = state_of::<S>(xn).iter().map(|s| s.bits()).collect();
+        let intact = if xn == x && y != x { after == before } else { after == want };
         if xn != x {
             *moved += 1;
         }
